@@ -36,6 +36,10 @@ func verifEq(a, b []byte) bool {
 // C20: a dictionary built from any sorted set of distinct keys answers exact lookup, ordered
 // iteration and prefix enumeration like a sorted map - before and after serialisation.
 func verifDictionary(maxKeys, maxKeyLen, minKeyLen int, serialise bool) {
+	verifDictionaryWith(maxKeys, maxKeyLen, minKeyLen, serialise, false)
+}
+
+func verifDictionaryWith(maxKeys, maxKeyLen, minKeyLen int, serialise, reuse bool) {
 	n := 1 + verifChoose("nkeys", maxKeys)
 	keys := make([][]byte, n)
 	vals := make([]uint32, n)
@@ -47,6 +51,20 @@ func verifDictionary(maxKeys, maxKeyLen, minKeyLen int, serialise bool) {
 		}
 	}
 	b := NewBuilder()
+	if reuse {
+		// the builder is pooled by its users (trie bucket builder, index flusher): before this dictionary it
+		// built and wrote a larger one (300 keys of two bytes: bit vectors of several words), then Reset
+		var bigKeys [][]byte
+		var bigVals []uint32
+		for i := 0; i < 300; i++ {
+			bigKeys = append(bigKeys, []byte{byte('A' + i/20), byte('a' + i%20)})
+			bigVals = append(bigVals, uint32(i))
+		}
+		b.Build(bigKeys, bigVals)
+		var big bytes.Buffer
+		verifAssert(b.Write(&big) == nil, "write of the earlier dictionary succeeds")
+		b.Reset()
+	}
 	b.Build(keys, vals)
 	var tr SuccinctTrie
 	if serialise {
@@ -108,6 +126,9 @@ func verifDictionary(maxKeys, maxKeyLen, minKeyLen int, serialise bool) {
 func verifC20Dict2()     { verifDictionary(2, 2, 1, true) }
 func verifC20Dict3()     { verifDictionary(3, 2, 1, true) }
 func verifC20DictInMem() { verifDictionary(2, 2, 1, false) }
+
+// the same through a builder that was used for a larger dictionary before (Reset + reuse)
+func verifC20DictReusedBuilder() { verifDictionaryWith(2, 2, 1, true, true) }
 
 // the empty key and the empty probe are part of the space
 func verifC20DictEmptyKey() { verifDictionary(2, 1, 0, true) }
